@@ -12,4 +12,5 @@ func isBudgetPanic(r any) bool {
 	_, ok := r.(engine.VerifBudgetExceeded)
 	return ok
 }
-func abortRun() { engine.VerifAbort() }
+func abortRun()                  { engine.VerifAbort() }
+func vmProgress() (int64, int64) { return engine.VerifProgress() }
